@@ -13,6 +13,7 @@ import (
 
 	"github.com/gofiber/fiber/v3"
 	"github.com/gofiber/fiber/v3/client"
+	"github.com/valyala/fasthttp"
 
 	"verifharness/internal/gen"
 )
@@ -204,6 +205,75 @@ func observeRequest(c fiber.Ctx) string {
 		gen.Hex(string(req.Header.Referer())), j(sortedPairs(ck)), gen.Hex(ct), body, j(ff), j(files))
 }
 
+
+// ---- pooled objects ------------------------------------------------------------------------------
+
+// pollute plays an earlier, unrelated user of the pooled Request / Response objects: a request bound to
+// another client, with every component configured, sent (so that RawRequest, Response.cookie and
+// RawResponse are dirty too) and released. It returns whether the object the NEXT user gets from the
+// pool is observably blank (a recycled object has been through Reset: method GET; one that sync.Pool had to
+// make anew has the zero method, which fasthttp sends as GET as well).
+var polluteRound int
+
+func pollute() (clean bool, same bool) {
+	polluteRound++
+	leakCl := client.New().SetDial(dialer).SetHeader("X-Leak-Client", "1").SetCookie("leakcc", "1").
+		SetUserAgent("leak-client-agent").SetReferer("http://leak-client/")
+	r := client.AcquireRequest().SetClient(leakCl)
+	r.AddHeader("X-Leak", "h").SetHeader("X-Leak2", "h2").AddParam("leak", "p").SetParam("x", "leak").
+		SetCookie("leakc", "v").SetCookie("c1", "leak").SetPathParam("id", "LEAK").SetPathParam("missing", "LEAK").
+		SetPathParam("a", "LEAK").SetUserAgent("leak-agent").SetReferer("http://leak/").
+		SetTimeout(7 * time.Second).SetMaxRedirects(3).SetContext(context.WithValue(context.Background(), leakKey{}, 1))
+	switch polluteRound % 3 {
+	case 0:
+		r.SetRawBody([]byte("leak-body"))
+	case 1:
+		r.AddFormData("leakf", "v").SetFormData("a", "leak")
+	default:
+		r.AddFormData("leakf", "v")
+		r.AddFiles(client.AcquireFile(client.SetFileFieldName("leakfile"), client.SetFileName("leak.txt"),
+			client.SetFileReader(io.NopCloser(bytes.NewReader([]byte("leak"))))))
+	}
+	saveCT := ctExpected
+	respCookies = append(respCookies[:0], mkCookie("leakset", "1", "/", "n", time.Now()))
+	resp, err := r.Post("http://leak.test/leak/:missing?lq=1")
+	for _, c := range respCookies {
+		fasthttp.ReleaseCookie(c)
+	}
+	respCookies = respCookies[:0]
+	ctExpected = saveCT
+	if err != nil {
+		client.ReleaseRequest(r)
+	} else {
+		resp.Close()
+	}
+	n := client.AcquireRequest()
+	same = n == r
+	clean = n.Client() == nil && n.URL() == "" && (n.Method() == "GET" || (n != r && n.Method() == "")) && n.UserAgent() == "" && n.Referer() == "" &&
+		n.Timeout() == 0 && n.MaxRedirects() == 0 && len(n.Files()) == 0 && n.Context().Value(leakKey{}) == nil &&
+		n.Boundary() == "--FiberFormBoundary" && n.RawRequest.Header.Len() == 0 && len(n.RawRequest.Body()) == 0 &&
+		len(n.RawRequest.Header.RequestURI()) <= 1
+	for range n.Headers() {
+		clean = false
+	}
+	for range n.Params() {
+		clean = false
+	}
+	for range n.Cookies() {
+		clean = false
+	}
+	for range n.PathParams() {
+		clean = false
+	}
+	for range n.AllFormData() {
+		clean = false
+	}
+	client.ReleaseRequest(n)
+	return clean, same
+}
+
+type leakKey struct{}
+
 // ---- client side -------------------------------------------------------------------------------
 
 func applyOps(es []entry, add, set func(k, v string)) {
@@ -217,7 +287,12 @@ func applyOps(es []entry, add, set func(k, v string)) {
 }
 
 // sendAsm builds a fresh client + request from the configuration and sends it once.
-func sendAsm(a *asmCase) (obs string, timedOut bool) {
+func sendAsm(a *asmCase) (obs string, timedOut bool, pool bool) {
+	pool, sameObj := pollute()
+	if sameObj {
+		poolSame++
+	}
+	poolRounds++
 	cl := client.New().SetDial(dialer)
 	cl.SetBaseURL(a.base)
 	applyOps(a.cH, func(k, v string) { cl.AddHeader(k, v) }, func(k, v string) { cl.SetHeader(k, v) })
@@ -289,17 +364,23 @@ func sendAsm(a *asmCase) (obs string, timedOut bool) {
 	if err != nil {
 		client.ReleaseRequest(req)
 		if errors.Is(err, client.ErrTimeoutOrCancel) {
-			return "timeout", true
+			return "timeout", true, pool
 		}
-		return "err=" + gen.Hex(err.Error()), false
+		return "err=" + gen.Hex(err.Error()), false, pool
 	}
 	st := resp.StatusCode()
+	// the Response object is pooled too: it must carry this exchange only
+	if len(resp.Cookies()) != 0 || string(resp.Body()) != "ok" || resp.Header("Set-Cookie") != "" {
+		pool = false
+	}
 	resp.Close()
 	if !seen.ran {
-		return fmt.Sprintf("notrun=%d", st), false
+		return fmt.Sprintf("notrun=%d", st), false, pool
 	}
-	return seen.text, false
+	return seen.text, false, pool
 }
+
+var poolSame, poolRounds int
 
 func hostOfURL(base, url string) string {
 	u := url
@@ -320,13 +401,14 @@ func runAsm(a *asmCase) string {
 	if a.delay > 0 {
 		n = 1
 	}
-	first, to := sendAsm(a)
+	first, to, pool := sendAsm(a)
 	det := true
 	for i := 1; i < n; i++ {
-		o, t := sendAsm(a)
+		o, t, p := sendAsm(a)
 		if o != first || t != to {
 			det = false
 		}
+		pool = pool && p
 	}
-	return first + ";det=" + gen.B(det)
+	return first + ";pool=" + gen.B(pool) + ";det=" + gen.B(det)
 }
